@@ -21,7 +21,7 @@ for p in props:
         "evidence_file": f"/verif/evidence/{p}.json",
         "replay_cmd_template": "/verif/check replay {path}",
         "engine": "govc",
-        "level_claimed": {"category": "proof", "text": c.get("level_text", ""), "design_ref": c.get("design_ref", "DESIGN.md section 6, " + p)},
+        "level_claimed": {"category": "proof", "text": c.get("level_text", ""), "design_ref": c.get("design_ref", "DESIGN.md section 6 (design) and 11.4 (as built), " + p)},
         "level_note": c.get("level_note", ""),
         "technique": c.get("technique", "contract-based deductive verification: weakest-precondition VCs over go/ssa of the real code, discharged by z3/cvc5"),
     })
